@@ -92,11 +92,14 @@ def mutants(text, rng, n):
 def load_sources(ctx, n_mut_per_file, include_known=True, gen=0):
     """[(name, text, origin)]"""
     res = []
-    dirs = [TESTDATA] + ([os.path.join(TESTDATA, "known")] if include_known else [])
-    for d in dirs:
+    # corpus: accepted programs, one per mechanism; known/: witnesses of repaired checker defects (now rejected);
+    # reject/: unsafe programs that the checker must reject, each for exactly one reason - a checker regression that
+    # accepts one of them turns it into an accepted program like any other, and the model finds its fault
+    dirs = [(TESTDATA, "corpus")] + ([(os.path.join(TESTDATA, "known"), "known-shape"), (os.path.join(TESTDATA, "reject"), "must-reject")] if include_known else [])
+    for d, origin in dirs:
         for fn in sorted(os.listdir(d)):
             if fn.endswith(".wuffs"):
-                res.append((fn[:-6], open(os.path.join(d, fn)).read(), "corpus" if d == TESTDATA else "known-shape"))
+                res.append((fn[:-6], open(os.path.join(d, fn)).read(), origin))
     base = [r for r in res if r[2] == "corpus"]
     for name, text, _ in base:
         for desc, t2 in mutants(text, ctx.rng, n_mut_per_file):
